@@ -8,6 +8,8 @@
 mod c01;
 mod c04;
 mod c06;
+mod c07;
+mod jwtu;
 mod c08;
 mod c09;
 mod c10;
@@ -34,6 +36,7 @@ fn run_line(prop: &str, line: &str) -> String {
     "C01" => c01::run(args),
     "C04" => c04::run(args),
     "C06" => c06::run(args),
+    "C07" => c07::run(args),
     "C08" => c08::run(args),
     "C09" => c09::run(args),
     "C10" => c10::run(args),
@@ -70,6 +73,7 @@ fn main() {
         "C01" => c01::gen(thorough, seed, &mut out),
         "C04" => c04::gen(thorough, seed, &mut out),
         "C06" => c06::gen(thorough, seed, &mut out),
+        "C07" => c07::gen(thorough, seed, &mut out),
         "C08" => c08::gen(thorough, seed, &mut out),
         "C09" => c09::gen(thorough, seed, &mut out),
         "C10" => c10::gen(thorough, seed, &mut out),
